@@ -336,8 +336,8 @@ def loop_carried_names(loop, store_ok=(), distinct_calls=()):
                 for t in st.targets:
                     if isinstance(t, ast.Name):
                         definite.add(t.id)
-                    elif isinstance(t, (ast.Tuple, ast.List)) and all(isinstance(e, ast.Name) for e in t.elts):
-                        definite.update(e.id for e in t.elts)
+                    elif isinstance(t, (ast.Tuple, ast.List)) and all(isinstance(e, ast.Name) or (isinstance(e, ast.Subscript) and ast.unparse(e.value) in cells) for e in t.elts):
+                        definite.update(e.id for e in t.elts if isinstance(e, ast.Name))  # names are (re)defined; X[i] elements are per-iteration cells
                     elif isinstance(t, ast.Subscript) and isinstance(t.value, ast.Name) and t.value.id in store_ok:
                         reads(t.slice, definite)  # a store into the designated write-only accumulator
                     elif isinstance(t, ast.Subscript) and ast.unparse(t.value) in cells:
